@@ -421,13 +421,19 @@ func (rp *ResourcePool) scaleOutResources() (resourceWrapper, bool) {
 
 // 扩容并获取连接, 外层加锁了，所以这边不加锁
 func (rp *ResourcePool) AddCapacityResource() (resourceWrapper, bool) {
-	verifStep("so:cap2")
-	capacity := int(rp.capacity.Get())
-	if capacity <= 0 || capacity >= int(rp.maxCapacity.Get()) {
-		return resourceWrapper{}, false
+	for {
+		verifStep("so:cap2")
+		capacity := int(rp.capacity.Get())
+		if capacity <= 0 || capacity >= int(rp.maxCapacity.Get()) {
+			return resourceWrapper{}, false
+		}
+		verifStep("so:add")
+		// ScaleCapacity swaps the capacity without holding rp.lock: only add
+		// to the value that was checked.
+		if rp.capacity.CompareAndSwap(int64(capacity), int64(capacity)+1) {
+			break
+		}
 	}
-	verifStep("so:add")
-	rp.capacity.Add(1)
 	verifStep("so:avail")
 	rp.available.Add(1)
 	return resourceWrapper{}, true
